@@ -89,6 +89,7 @@ run_symbols() {
   return 0
 }
 
+export VERIF_PART_DIR="$B"
 export TSAN_OPTIONS="halt_on_error=1 exitcode=66 report_signal_unsafe=0"
 for part in $parts; do
   case $part in
